@@ -156,12 +156,36 @@ fn tree_case<W: Write>(out: &mut W, bytes: &[u8], ops: &str) {
     writeln!(out, "C16 kind=tree ops={ops} bytes={} {r}", hex(bytes)).unwrap();
 }
 
+/// an `ftyp` box through the typed API: parse the box, optionally parse its payload into `FtypBox` (typed, with the
+/// brands as an array of 4-byte entries - the payload may have 1..3 trailing bytes), then serialise
+fn ftyp_case<W: Write>(out: &mut W, bytes: &[u8], typed: bool) {
+    let r = crate::quiet(AssertUnwindSafe(|| {
+        let mut buf = BytesMut::from(bytes);
+        let mut bx = match Mp4Box::<mp4san::parse::FtypBox>::parse(&mut buf) {
+            Ok(b) => b,
+            Err(e) => return format!("res=err:{}", parse_kind(e.get_ref())),
+        };
+        let rest = buf.len();
+        if typed {
+            if let Err(e) = bx.data.parse() {
+                return format!("res=acc-err:{} rest={rest}", parse_kind(e.get_ref()));
+            }
+        }
+        let mut put = Vec::new();
+        bx.put_buf(&mut put);
+        format!("res=ok rest={rest} put={} elen={}", hex(&put), bx.encoded_len())
+    }))
+    .unwrap_or("res=panic".into());
+    writeln!(out, "C16 kind=ftyp typed={} bytes={} {r}", typed as u8, hex(bytes)).unwrap();
+}
+
 pub fn replay<W: Write>(line: &str, out: &mut W) {
     let get = |k: &str| line.split(' ').find_map(|t| t.strip_prefix(&format!("{k}=")).map(|s| s.to_string()));
     match get("kind").as_deref() {
         Some("hdr") => hdr_case(out, &unhex(&get("bytes").unwrap())),
         Some("ctor") => ctor_case(out, &get("ty").unwrap(), get("n").unwrap().parse().unwrap(), get("u32").as_deref() == Some("1")),
         Some("tree") => tree_case(out, &unhex(&get("bytes").unwrap()), &get("ops").unwrap()),
+        Some("ftyp") => ftyp_case(out, &unhex(&get("bytes").unwrap()), get("typed").as_deref() == Some("1")),
         _ => panic!("bad replay line"),
     }
 }
@@ -247,5 +271,13 @@ pub fn run<W: Write>(opts: &Opts, out: &mut W) {
         let ops: String = (0..nops).map(|_| *r.pick(&op_alphabet)).collect();
         tree_case(out, &bytes, if ops.is_empty() { "-" } else { &ops });
         tree_case(out, &bytes, "A");
+        if i % 4 == 0 {
+            // ftyp payloads of 8..40 bytes, also with 1..3 bytes after the last whole brand, every header form
+            let plen = 8 + r.below(33) as usize;
+            let enc = match r.below(4) { 0 => Enc::S64, 1 => Enc::Eof, _ => Enc::S32 };
+            let f = bx(b"ftyp", &r.bytes(plen), enc);
+            ftyp_case(out, &f, false);
+            ftyp_case(out, &f, true);
+        }
     }
 }
